@@ -402,7 +402,7 @@ pub fn meta(args: &Args) -> Value {
         "hang_is_violation": false,
         "n_quick": args.cases(600, 40000),
         "sanitizer": {"kind": "asan", "budget": 600, "slowdown": 6},
-        "miri": {"budget": 32, "slowdown": 60, "flags": "-Zmiri-disable-stacked-borrows", "deadline_s": 2400},
+        "miri": {"budget": 16, "slowdown": 60, "flags": "-Zmiri-disable-stacked-borrows", "deadline_s": 3000},
     })
 }
 
@@ -411,7 +411,7 @@ pub fn meta(args: &Args) -> Value {
 /// drawn by the seed.
 fn run_miri(args: &Args, out: &mut Out) {
     let files = corpus_files(&args.repo);
-    let total = args.cases(32, 32);
+    let total = args.cases(16, 16);
     drive(
         args,
         out,
